@@ -6,7 +6,9 @@ RULE = ("random problems (3 geometries with parameters in their valid ranges x 7
         "random / power-of-two / one-hot vectors.  The Jacobian entries and profile values at the LEVEL'S OWN nodes are the model's "
         "input, so compute_jacobian_elements and the cache inheritance are inside the comparison.  Exact rational `Stencil.take` with "
         "allowance 2^-40*S (S = sum of term magnitudes); model give = model take re-checked at run time; oracle on the implementation: "
-        "all strategies / cache variants / thread counts agree on identical inputs.  Distinct by (nr, nt, bc, geometry, profile)")
+        "all strategies / cache variants / thread counts agree on identical inputs.  Level caches: every array (sin, cos, alpha, beta, arr, att, "
+        "art, detDF; library node numbering) of every level of chains of depth <= 3 under the four flag pairs, bit for bit against the "
+        "code-level model GMGModel/Cache.lean run in double; model obtainValues = direct evaluation on every node.  Distinct by (nr, nt, bc, geometry, profile)")
 
 
 def run(ctx):
@@ -17,5 +19,7 @@ def run(ctx):
     else:
         ctx.pipe([h, "residual", "300", "17", "32"], "residual", label="residual-small")
         ctx.pipe([h, "residual", "12", "65", "128"], "residual", label="residual-large")
+    # code-level model of both LevelCache constructors (GMGModel/Cache.lean): every cache array of every level of a chain, all four flag pairs
+    ctx.pipe([h, "cache", "20" if ctx.tier == "quick" else "200", "17", "32"], "cache", label="level-caches")
     ctx.assumptions += ["theorem give = take needs antipodally symmetric angular spacing across the origin (C03.hk_needed shows it is necessary); "
                         "grids accepted by the constructor have it up to rounding", "rounding is covered by the allowance, not proved"]
